@@ -1,8 +1,10 @@
 """C08 — sorting collections agree on one arrangement-independent acquisition order."""
+import re
+
 import bprop
 import common
 import shapes
-from common import from_replay, to_replay  # noqa: F401
+
 
 COQ_MODULE = "Prop_C08"
 THEOREMS = ["C08_sort_perm_invariant", "C08_common_same_order", "C08_monitor", "C08_every_schedule_one_order",
@@ -19,12 +21,44 @@ RULE = ("pairs of sorting collections (boxed / ref, optionally inside Poisonable
         "interleaved (Level B) programs of 2-4 threads taking sorting collections that list the same (mostly RwLock) leaves "
         "in different orders, in both modes, against holders of single leaves: the order in which every blocking "
         "acquisition took the locks it holds when it hands out its guard / enters its closure must agree pairwise on the "
-        "common locks (BMonitors.v mon_C08b)")
+        "common locks (BMonitors.v mon_C08b); plus tightly packed locks: eight one-byte locks inside two machine words, listed "
+        "in random orders (and with one repetition) through the checked constructors of the boxed, ref and retrying "
+        "collection: taken in address order whatever the listing (listing order for the retrying one), refused when repeated")
 BCOUNT = {"quick": 500, "thorough": 8000}
 EXHAUSTIVE = {"quick": False, "thorough": False}
 
 
+class PCase:
+    """tightly packed locks (harness/src/packed.rs): one-byte locks next to each other inside one machine word, listed in
+    some order (possibly with a repetition) and taken through a checked collection; the order in which the raw locks were
+    taken, as positions in memory"""
+    def __init__(self, sid, kind, listing):
+        self.sid, self.kind, self.listing = sid, kind, listing
+        self.hist, self.meta, self.sched = [], {}, None
+
+    def text(self):
+        return f"pk {self.sid} {self.kind} " + " ".join(map(str, self.listing))
+
+
+def packed_cases(rng, tier):
+    out = []
+    for kind in ("boxed", "ref", "retry"):
+        for n in (2, 3, 4, 5, 6, 8):
+            for _ in range(6 if tier == "quick" else 40):
+                listing = rng.sample(range(8), n)
+                out.append(PCase(f"c08p_{len(out)}", kind, listing))
+            for _ in range(3 if tier == "quick" else 12):
+                listing = rng.sample(range(8), n)
+                listing.insert(rng.randrange(n + 1), rng.choice(listing))       # one lock listed twice
+                out.append(PCase(f"c08p_{len(out)}", kind, listing))
+    return out
+
+
 def gen(tier, rng):
+    return gen_main(tier, rng) + packed_cases(rng, tier)
+
+
+def gen_main(tier, rng):
     n = 1500 if tier == "quick" else 20000
     scens = []
     for i in range(n):
@@ -93,6 +127,21 @@ def gen(tier, rng):
 
 
 def coq_expr(s, r):
+    if isinstance(s, PCase):
+        ob = r.get("pkobs", "") or ""
+        lst = "[" + "; ".join(map(str, s.listing)) + "]"
+        dup = len(set(s.listing)) < len(s.listing)
+        if dup:
+            ok = "true" if ob.strip() == "none" else "false"       # the checked constructor refuses a repeated lock
+        else:
+            m = re.match(r"ok (\[.*\])$", ob)
+            if not m:
+                ok = "false"
+            elif s.kind == "retry":
+                ok = f"list_eqb Nat.eqb {lst} {m.group(1)}"            # uncontended: the listing order
+            else:
+                ok = f"list_eqb Nat.eqb (isort (fun x => x) {lst}) {m.group(1)}"   # address order, whatever the listing
+        return f"mkv true true ({ok}) ({ok})"
     if s.sched:
         e = bprop.coq_expr("C08", s, r, "b")
         # also evaluate the decidable hypotheses of the every-schedule theorems on this scenario
@@ -101,6 +150,9 @@ def coq_expr(s, r):
 
 
 def classify(s, r):
+    if isinstance(s, PCase):
+        return ["family=packed-locks", f"kind={s.kind}", f"len={len(s.listing)}",
+                "repeated=" + str(len(set(s.listing)) < len(s.listing))]
     if s.sched:
         return ["interleaved"] + bprop.classify(s, r)
     return [f"ncommon={s.meta['ncommon']}", f"modes={'/'.join(s.meta['modes'])}",
@@ -108,12 +160,28 @@ def classify(s, r):
 
 
 def nontrivial(s, r):
+    if isinstance(s, PCase):
+        return True
     if s.sched:
         return "BWait" in (r["bobs"] or "")
     return s.meta["ncommon"] >= 2 or s.meta["nested_common"]
 
 
 def signature(s):
+    if isinstance(s, PCase):
+        return s.text()
     if s.sched:
         return s.text()
     return (s.meta["d1"], s.meta["d2"], tuple(s.meta["modes"]))
+
+
+def to_replay(s):
+    return {"case": s.text()} if isinstance(s, PCase) else common.to_replay(s)
+
+
+def from_replay(j):
+    sc = j.get("scenario") or j
+    if "case" in sc:
+        t = sc["case"].split()
+        return [PCase(t[1], t[2], [int(x) for x in t[3:]])]
+    return common.from_replay(j)
